@@ -320,7 +320,7 @@ def defects(secs):
         if s.is_content:
             D.append(('length-missing', i, _mk_nolength(i)))
             for how in ('replace-newline', 'strip-newline', 'other-kind',
-                        'half-newline'):
+                        'half-newline', 'dangling-indent'):
                 D.append(('no-final-newline:%s' % how, i,
                           _mk_nonewline(i, how)))
             for v in ('mac', 'DOS', '5', 'Unix'):
@@ -369,6 +369,13 @@ def _mk_nonewline(i, how):
             s.body = s.body[:-len(nlb)]
             if not s.body or s.body.endswith(nlb):
                 return False
+        elif how == 'dangling-indent':
+            # a complete line followed by part of the next line's
+            # indentation: the content does not end in its newline
+            ind = dict(s.opts).get('indent')
+            if s.ckey != 'text' or not ind or int(ind) < 1:
+                return False
+            s.body = s.body + b' ' * min(int(ind), 3)
         elif how == 'other-kind':
             if s.kind != 'dos':
                 return False
